@@ -699,6 +699,21 @@ def r_attrread(ctx) -> RuleResult:
                     reads.append((n, n.args[1], "node"))
                 if r and r[0] == "ext" and r[1] == "networkx.get_edge_attributes":
                     reads.append((n, n.args[1] if len(n.args) > 1 else ast.Constant("?"), "edge"))
+        # graph-level data (G.graph[...]) is neither element, isotope, radical nor connectivity
+        for n in own_walk(fn):
+            if isinstance(n, ast.Attribute) and n.attr == "graph" and isinstance(n.value, ast.Name) and _is_graph_param(fi, n.value.id) and isinstance(n.ctx, ast.Load):
+                par = None
+                for x in own_walk(fn):
+                    for c in ast.iter_child_nodes(x):
+                        if c is n:
+                            par = x
+                is_store = isinstance(par, ast.Subscript) and isinstance(par.ctx, (ast.Store, ast.Del))
+                if not is_store:
+                    n_reads += 1
+                    res.inst(fi.fq, short(par if par is not None else n), "fail")
+                    res.fail(Finding("R-ATTRREAD", fi.module.rel, fi.qualname, norm(par if par is not None else n),
+                                     "the pipeline reads graph-level data: something that is not element / isotope / radical / connectivity (and that copies of the graph carry along) influences the result",
+                                     line=n.lineno))
         carried = set()
         for n in own_walk(fn):
             if isinstance(n, ast.Call) and isinstance(n.func, ast.Attribute) and n.func.attr in ("add_edges_from", "add_weighted_edges_from") and n.args:
